@@ -407,9 +407,27 @@ func (e *Engine) checkExit(fi *FuncInfo, o Out, sig *types.Signature) {
 	}
 	env.names = names
 	env.pos = fi.Decl.Body.Rbrace
-	for _, cl := range c.byKind("use", "") {
-		uenv := e.specEnvAt(st, fi.Decl.Body.Rbrace)
-		e.useLemma(cl.Expr, uenv, st, cl.Where)
+	// proof script of the exit: lemma applications and intermediate steps, in textual order. A step is an
+	// obligation like any other; once stated it may be relied on by what follows (assert, then assume).
+	nstep := 0
+	for _, cl := range c.Clauses {
+		if cl.Scope != "" {
+			continue
+		}
+		switch cl.Kind {
+		case "use":
+			uenv := e.specEnvAt(st, fi.Decl.Body.Rbrace)
+			e.useLemma(cl.Expr, uenv, st, cl.Where)
+		case "step":
+			label := fmt.Sprintf("step#%d", nstep)
+			if cl.Label != "" {
+				label = "step/" + cl.Label
+			}
+			nstep++
+			t := term(e.evalSpec(cl.Expr, env))
+			e.assert(st, t, label, cl.Where, cl.Tags)
+			st.assume(t)
+		}
 	}
 	// parameters keep their entry values in specs (Go parameters are mutable; contracts talk about entry values)
 	for _, kind := range []string{"ensures", "guarantees"} {
